@@ -58,6 +58,17 @@ class Peer(threading.Thread):
             self.reply_ok(mid)
         return len(ids)
 
+    def start_stream(self, pause=0.0005):
+        """send notifications back to back until the connection goes away (an active subscription)"""
+        def body():
+            i = 0
+            while not self.closed_own and not self.done.is_set():
+                i += 1
+                if not self._send(b'<notification xmlns="urn:ietf:params:xml:ns:netconf:notification:1.0"><eventTime>2026-01-01T00:00:00Z</eventTime><n>%d</n></notification>' % i + DELIM):
+                    return
+                time.sleep(pause)
+        th = threading.Thread(target=body, daemon=True, name='c12-stream'); th.start(); return th
+
     def run(self):
         try:
             self._run()
